@@ -480,7 +480,6 @@ func runC08(c *Ctx) {
 	// ---------- R08.6 the store compares the stored owner
 	c.Import(runC01, "R01.3", ".Update ::", "R08.6", "E1", "inmem Update: the owner test is made on the stored resource, under the lock, before the version test and before any effect", 3)
 
-
 	// ---------- error discipline (E8)
 	errDisciplineFor(c, "C08")
 }
